@@ -308,12 +308,28 @@ def replay(pid, path):
         print("replay file is a report, not a history:")
         print("\n".join(lines))
         return 1
+    if len(lines) > 20000 and sum(1 for l in lines if l.startswith("var ")) > 4000:
+        # a scale history (tens of thousands of nodes): crate only, release and debug builds (the model needs minutes for these)
+        bad = []
+        for prof in ("release", "debug"):
+            impl = H.run_impl(path, oracle=True, profile=prof, timeout=300)
+            for l in impl["oracle"]:
+                print(l[:400] + " [%s build]" % prof)
+            bad += [l for l in impl["oracle"] if oracle_tags(l) in R.TAGS[pid]]
+            if impl["status"] != "ok":
+                bad.append("crate ended with %s [%s build]" % (impl["status"], prof))
+                print(bad[-1])
+        if bad:
+            print("VIOLATION property=%s replay=%s" % (pid, path))
+            return 1
+        print("scale history: no oracle failure of %s in either build" % pid)
+        return 0
     impl = H.run_impl(path, oracle=True, timeout=120)
     model = H.run_model(path, timeout=600)
     exact, canon, diff = H.compare_traces(lines, impl["lines"], model["lines"], alloc=(pid in R.ALLOC))
     bad = [l for l in impl["oracle"] if oracle_tags(l) in R.TAGS[pid]]
     for l in impl["oracle"]:
-        print(l)
+        print(l[:600])
     print("crate vs model: exact=%s canonical=%s %s" % (exact, canon, "" if canon else "first difference: %r" % (diff,)))
     if bad:
         print("VIOLATION property=%s replay=%s" % (pid, path))
